@@ -31,7 +31,7 @@ ASSUMPTIONS = ["backwards clock jumps are not injected (the property speaks of e
                "with a ticking clock the +-1us boundary classes are widened to +-16us and verdicts inside the band are withheld",
                "real-time cross-check is left to the repository's own three sleep-based tests"]
 FAULT_KINDS = ["preemption", "clock_gap_at_boundary", "clock_tick_between_reads", "expiry"]
-PROBES = ["access_concurrent_with_sweep", "due_instance_accessed_during_a_sweep", "slow_release_of_expired_instances", "save_state_between_accesses", "created_via_start_instances", "expired_exactly_at_boundary", "alive_one_us_before_boundary", "restored_from_adapter",
+PROBES = ["two_sweeping_requests_together", "access_concurrent_with_sweep", "due_instance_accessed_during_a_sweep", "slow_release_of_expired_instances", "save_state_between_accesses", "created_via_start_instances", "expired_exactly_at_boundary", "alive_one_us_before_boundary", "restored_from_adapter",
           "refused_after_expiry", "self_access_after_expiry_before_sweep", "swept_by_other_access",
           "swept_by_create", "swept_by_metrics", "keepalive_restore"]
 EXHAUSTIVE = {"quick": False, "thorough": False}
@@ -76,6 +76,12 @@ def slow_sweep_pattern(rng):
     events.append({"gap_us": tb * 10**6 - lead, "op": "access", "inst": b, "kind": rng.choice(["keep_alive", "keep_alive", "session_results"]),
                    "with_trigger": {"op": rng.choice(["metrics", "full_metrics"]), "trigger_first": rng.random() < 0.7,
                                     "sched": {"kind": "random", "seed": rng.randrange(2**32), "p": rng.choice([0.0, 0.01, 0.03, 0.3])}}})
+    if rng.random() < 0.3:
+        # variant: A and a later instance of the same age are both due; two sweeping requests arrive together
+        events = [e for e in events if e["op"] == "create"]
+        events.append({"gap_us": 0, "op": "create", "timeout": tmo["A"], "session": True, "via": "single"})
+        events.append({"gap_us": (ta + 1) * 10**6, "op": rng.choice(["metrics", "full_metrics"]),
+                       "with_second": {"op": "full_metrics", "sched": {"kind": "random", "seed": rng.randrange(2**32), "p": rng.choice([0.0, 0.01, 0.05])}}})
     events.append({"gap_us": rng.choice([1000, 10**6]), "op": rng.choice(["metrics", "full_metrics"])})
     events.append({"gap_us": 10**6, "op": "access", "inst": b, "kind": "session_results"})
     return {"property": PROPERTY,
@@ -134,6 +140,10 @@ def generate(spec):
                            "via": rng.choice(["single", "single", "plural"])})
         elif r < 0.30:
             events.append({"gap_us": gap, "op": rng.choice(["metrics", "full_metrics"])})
+            if rng.random() < 0.15:
+                # two sweeping requests in flight together: each of them answers without the instances that were due
+                events[-1]["with_second"] = {"op": rng.choice(["metrics", "full_metrics"]),
+                                             "sched": {"kind": "random", "seed": rng.randrange(2**32), "p": rng.choice([0.0, 0.02, 0.2])}}
         elif r < 0.33 and adapter:
             events.append({"gap_us": gap, "op": "save_state"})
         elif r < 0.34:
@@ -169,7 +179,7 @@ def execute(case):
     expect_destroyed = {}   # serial -> 1 for every bptk whose instance was timed out
     expired_any = [False]
 
-    conc = any(e.get("with_trigger") for e in case["events"])
+    conc = any(e.get("with_trigger") or e.get("with_second") for e in case["events"])
     if cfg.get("destroy_cost_us"):
         res.probe("slow_release_of_expired_instances")
     with ServerWorld({"model": cfg["model"], "adapter": adapter, "clock_ticks": ticks, "threads": "auto" if conc else "serial",
@@ -247,6 +257,52 @@ def execute(case):
                     i.lo, i.hi = tb0, clk.now_us
                     age(tb0, clk.now_us, skip=i, why="other_access")
                 log.add("return", n, r.status)
+            elif op in ("metrics", "full_metrics") and ev.get("with_second"):
+                from sim.threads import Scheduler, make_policy, run_tasks
+                ws = ev["with_second"]
+                box = {}
+
+                def mk(name, which):
+                    def f():
+                        box[name] = w.get("/" + which.replace("_", "-"), auth=False)
+                    return f
+                sched = Scheduler(make_policy(ws["sched"]), ("server/bptkServer.py",), log=None)
+                with sched:
+                    rr_ = run_tasks(sched, [mk("a", op), mk("b", ws["op"])])
+                for x_ in rr_:
+                    if x_ and x_[0] == "exc":
+                        raise x_[1]
+                t1 = clk.now_us
+                res.probe("two_sweeping_requests_together")
+                if sched.switches > 2:
+                    res.fault("preemption", sched.switches)
+                log.add("pair", n, sched.interleaving_hash())
+                due = [i for i in insts if i.state != "gone" and not i.stopped and t0 - i.hi >= i.T]
+                maybe = [i for i in insts if i.state != "gone" and not i.stopped and not (t0 - i.hi >= i.T)]
+                young = [i for i in maybe if t1 - i.lo < i.T]
+                for name, which in (("a", op), ("b", ws["op"])):
+                    r = box[name]
+                    if which == "metrics":
+                        count = None
+                        for line in r.text.splitlines():
+                            if line.startswith("bptk_instance_count "):
+                                count = int(line.split()[1])
+                        listed = None
+                    else:
+                        body = r.body or {}
+                        count = body.get("instanceCount")
+                        listed = {k for k in body if k not in ("instanceCount", "threadCount")}
+                    # every request sweeps before it answers: what was due when the pair started is in neither answer,
+                    # what is certainly young is in both
+                    if r.status != 200 or count is None or count > len(maybe) or count < len(young):
+                        res.violate("C17.B-metrics-count", {"event": n, "op": which, "count": count, "expected_at_most": len(maybe),
+                                                            "expected_at_least": len(young), "due": [x.id for x in due], "concurrent": True})
+                    if listed is not None:
+                        for i in due:
+                            if i.id in listed:
+                                res.violate("C17.B-gone-but-listed", {"event": n, "inst": i.id, "concurrent": True})
+                age(t0, t1, why="metrics")
+                log.add("return", n, box["a"].status, box["b"].status)
             elif op in ("metrics", "full_metrics"):
                 if op == "metrics":
                     r = w.get("/metrics", auth=False)
@@ -399,6 +455,10 @@ def execute(case):
                     # (C) expired, nobody swept yet: either outcome is accepted
                     res.probe("self_access_after_expiry_before_sweep")
                     expired_any[0] = True
+                    if not served and i.ext and not wt:
+                        # expired, not swept yet, state externalised: whichever way the server sees it (still in memory, or
+                        # gone and restored) the request is served
+                        res.violate("C17.B-restore-" + ("keepalive" if kind == "keep_alive" else "request"), dict(detail, unswept=True))
                     if served:
                         i.lo, i.hi = t0, t1
                     else:
@@ -462,10 +522,11 @@ def shrink(case):
         c["config"]["destroy_cost_us"] = 0
         yield c
     for n, ev in enumerate(case["events"]):
-        if ev.get("with_trigger"):
-            c = copy.deepcopy(case)
-            c["events"][n].pop("with_trigger")
-            yield c
+        for key in ("with_trigger", "with_second"):
+            if ev.get(key):
+                c = copy.deepcopy(case)
+                c["events"][n].pop(key)
+                yield c
     for n, ev in enumerate(case["events"]):
         if ev["op"] == "access" and ev["kind"] not in ("session_results", "keep_alive"):
             c = copy.deepcopy(case)
